@@ -20,10 +20,17 @@ Theorem C09_rejected_is_inert : forall is_word lower body c ts faults pref w,
   build is_word lower body c ts faults pref w = mkRes XDag w [] [].
 Proof. exact rejected_graph_is_inert. Qed.
 
+(* ... and so is a cycle closed through 'after' edges (repaired F3): any cycle in the full graph *)
+Theorem C09_any_cycle_rejected : forall is_word lower c ts AE v,
+  all_after_edges is_word lower ts ts = Some AE -> Reach (base_edges ts ++ AE) v v ->
+  create_dag is_word lower c ts = DagErr.
+Proof. exact full_cycle_rejected. Qed.
+
 (* conversely an acyclic graph with unique producers (and parsable expressions) is accepted *)
-Theorem C09_wellformed_accepted : forall is_word lower c ts,
+Theorem C09_wellformed_accepted : forall is_word lower c ts AE,
   has_cycle (base_edges ts) = false -> dup_products ts (base_edges ts) = false ->
-  all_after_edges is_word lower ts ts <> None ->
+  all_after_edges is_word lower ts ts = Some AE ->
+  has_cycle (base_edges ts ++ AE) = false ->
   (forall e, kexpr c = Some e -> e <> [] -> exists a, compile is_word e = Ok a) ->
   (forall e, mexpr c = Some e -> e <> [] -> exists a, compile is_word e = Ok a) ->
   exists E desel, create_dag is_word lower c ts = DagOk E desel.
@@ -33,27 +40,19 @@ Proof. exact wellformed_accepted. Qed.
 Theorem C09_has_cycle_iff : forall E, has_cycle E = true <-> exists v, Reach E v v.
 Proof. exact has_cycle_iff. Qed.
 
-(* a cycle closed only through 'after' is also refused before anything runs and without
-   recording anything - but (F3) with the execution exit code instead of the graph one *)
-Theorem C09_after_cycle_partial : forall is_word lower body c ts faults pref w E desel,
-  create_dag is_word lower c ts = DagOk E desel -> (exists v, Reach E v v) ->
-  build is_word lower body c ts faults pref w = mkRes XFailed w [] [].
-Proof.
-  intros is_word lower body c ts faults pref w E desel D Cy.
-  pose proof (build_shape_of is_word lower body c ts faults pref w) as S.
-  destruct S as [D'|E' d' D' F'|E' d' s' b D' F' Hb]; try congruence.
-  rewrite D in D'. inversion D'; subst E' d'.
-  assert (from_dag (task_ids ts) E (prio_list ts) = None) by (apply from_dag_none_iff; exact Cy).
-  congruence.
-Qed.
+(* whatever create_dag accepts is acyclic *)
+Theorem C09_accepted_graph_acyclic : forall is_word lower c ts E desel,
+  create_dag is_word lower c ts = DagOk E desel -> forall v, ~ Reach E v v.
+Proof. exact accepted_graph_acyclic. Qed.
 
-Theorem C09_after_cycle_refuted :
+(* regression witness of F3: a cycle closed only through 'after' *)
+Theorem C09_after_cycle_witness :
   (exists v, Reach (base_edges f3_tasks ++ [(102, 1)]%N) v v) /\
-  x_exit (wbuild cfg0 f3_tasks (fun _ => NoFault) [] (mkWorld [] [])) = XFailed.
+  wbuild cfg0 f3_tasks (fun _ => NoFault) [] (mkWorld [] []) = mkRes XDag (mkWorld [] []) [] [].
 Proof.
   split.
   - apply has_cycle_iff. vm_compute. reflexivity.
-  - rewrite f3_after_cycle_exit. reflexivity.
+  - exact f3_after_cycle_exit.
 Qed.
 
 Print Assumptions C09_cycle_rejected.
@@ -61,5 +60,6 @@ Print Assumptions C09_duplicate_product_rejected.
 Print Assumptions C09_rejected_is_inert.
 Print Assumptions C09_wellformed_accepted.
 Print Assumptions C09_has_cycle_iff.
-Print Assumptions C09_after_cycle_partial.
-Print Assumptions C09_after_cycle_refuted.
+Print Assumptions C09_any_cycle_rejected.
+Print Assumptions C09_accepted_graph_acyclic.
+Print Assumptions C09_after_cycle_witness.
